@@ -1,6 +1,7 @@
 package main
 
 import (
+	"crypto/sha256"
 	"encoding/json"
 	"fmt"
 	"io"
@@ -10,6 +11,7 @@ import (
 	"sort"
 	"strings"
 	"sync"
+	"time"
 
 	"verif/internal/kit"
 )
@@ -90,7 +92,14 @@ func runWitnesses(repo, verif, prop string, rep *kit.Report) {
 	for _, pf := range pres {
 		cands = append(cands, cand{filepath.Base(filepath.Dir(pf)), "preserving", pf})
 	}
+	// documented limits: behaviour-preserving moves of anchored functions to another signature;
+	// the checks lose the anchor and say so (recorded, not expected to be silent)
+	lims, _ := filepath.Glob(filepath.Join(verif, "preserving_limits", "*", "patch.diff"))
+	for _, pf := range lims {
+		cands = append(cands, cand{filepath.Base(filepath.Dir(pf)), "limit", pf})
+	}
 	sort.Slice(cands, func(i, j int) bool { return cands[i].id < cands[j].id })
+	repoHash := treeHash(repo)
 	results := make([]witness, len(cands))
 	sem := make(chan struct{}, 8)
 	var wg sync.WaitGroup
@@ -100,13 +109,13 @@ func runWitnesses(repo, verif, prop string, rep *kit.Report) {
 			defer wg.Done()
 			sem <- struct{}{}
 			defer func() { <-sem }()
-			w := witness{ID: c.id, Kind: c.kind, Expect: map[string]string{"breaking": "fired", "preserving": "silent"}[c.kind]}
+			w := witness{ID: c.id, Kind: c.kind, Expect: map[string]string{"breaking": "fired", "preserving": "silent", "limit": "any"}[c.kind]}
 			defer func() {
 				if r := recover(); r != nil {
 					w.Outcome = "load-error"
 					w.Reports = []string{fmt.Sprint(r)}
 				}
-				w.AsWanted = w.Outcome == w.Expect
+				w.AsWanted = w.Outcome == w.Expect || (w.Expect == "any" && (w.Outcome == "fired" || w.Outcome == "silent"))
 				results[i] = w
 			}()
 			tmp, err := os.MkdirTemp("/tmp", "vwit")
@@ -125,35 +134,16 @@ func runWitnesses(repo, verif, prop string, rep *kit.Report) {
 				w.Reports = []string{"patch does not apply to the current tree: " + strings.TrimSpace(string(out))}
 				return
 			}
-			// analyse the variant in a fresh process (the normalisation state is per process)
-			sc, err := os.MkdirTemp("/tmp", "vwsc")
-			if err != nil {
-				w.Outcome = "not-applicable"
-				return
-			}
-			defer os.RemoveAll(sc)
-			exe, _ := os.Executable()
-			sub := exec.Command(exe, "-repo", tmp, "-verif", sc, "-property", prop, "-tier", "quick")
-			sub.Env = append(os.Environ(), "VCHECK_NO_WITNESSES=1", "VERIF_TIER=quick", "VCHECK_ANCHORS="+filepath.Join(verif, "anchors.json"))
-			out, _ := sub.CombinedOutput()
-			sawSummary := false
-			for _, line := range strings.Split(string(out), "\n") {
-				if strings.HasPrefix(line, "REPORT ") {
-					l := strings.ReplaceAll(line, tmp+"/", "")
-					if i := strings.Index(l, " at "); i > 0 {
-						l = l[:i]
-					}
-					w.Reports = append(w.Reports, strings.TrimPrefix(l, "REPORT "))
-				}
-				if strings.HasPrefix(line, "property "+prop+" tier") {
-					sawSummary = true
-				}
-			}
-			if !sawSummary {
+			// analyse the variant in a fresh process (the normalisation state is per process); all
+			// properties at once, shared between the thorough runs of the 20 properties through a
+			// cache keyed by the binary, the tree and the patch (an optimisation only)
+			res, lerr := variantResults(repoHash, tmp, c.patch, verif)
+			if lerr != "" {
 				w.Outcome = "load-error"
-				w.Reports = []string{strings.TrimSpace(string(out))}
+				w.Reports = []string{lerr}
 				return
 			}
+			w.Reports = res[prop]
 			if len(w.Reports) > 0 {
 				w.Outcome = "fired"
 			} else {
@@ -171,8 +161,8 @@ func runWitnesses(repo, verif, prop string, rep *kit.Report) {
 		}
 	}
 	rep.Extra["witnesses"] = results
-	rep.Extra["witness_summary"] = fmt.Sprintf("%d variants of the current tree analysed (%d breaking expected to fire, %d preserving expected silent): %d as expected, %d not applicable, %d unexpected",
-		len(results), countKind(results, "breaking"), countKind(results, "preserving"), ok, na, len(results)-ok-na)
+	rep.Extra["witness_summary"] = fmt.Sprintf("%d variants of the current tree analysed (%d breaking expected to fire, %d preserving expected silent, %d documented limits): %d as expected, %d not applicable, %d unexpected",
+		len(results), countKind(results, "breaking"), countKind(results, "preserving"), countKind(results, "limit"), ok, na, len(results)-ok-na)
 	fmt.Printf("witnesses: %s\n", rep.Extra["witness_summary"])
 	for _, w := range results {
 		if !w.AsWanted && w.Outcome != "not-applicable" {
@@ -189,4 +179,107 @@ func countKind(ws []witness, k string) int {
 		}
 	}
 	return n
+}
+
+// treeHash hashes the Go sources (and go.mod/go.sum) of a tree.
+func treeHash(dir string) string {
+	h := sha256.New()
+	var files []string
+	filepath.Walk(dir, func(path string, info os.FileInfo, err error) error {
+		if err != nil {
+			return nil
+		}
+		if info.IsDir() {
+			if info.Name() == ".git" || info.Name() == "_out" {
+				return filepath.SkipDir
+			}
+			return nil
+		}
+		if strings.HasSuffix(path, ".go") || strings.HasSuffix(path, "go.mod") || strings.HasSuffix(path, "go.sum") {
+			files = append(files, path)
+		}
+		return nil
+	})
+	sort.Strings(files)
+	for _, f := range files {
+		rel, _ := filepath.Rel(dir, f)
+		b, _ := os.ReadFile(f)
+		fmt.Fprintf(h, "%s %d\n", rel, len(b))
+		h.Write(b)
+	}
+	return fmt.Sprintf("%x", h.Sum(nil))
+}
+
+// variantResults analyses the patched copy in tmp for every property and returns the reports per
+// property. Results are cached under /tmp by (binary, unpatched tree, patch).
+func variantResults(repoHash, tmp, patch, verif string) (map[string][]string, string) {
+	exe, _ := os.Executable()
+	h := sha256.New()
+	if st, err := os.Stat(exe); err == nil {
+		fmt.Fprintf(h, "%s %d %d\n", exe, st.Size(), st.ModTime().UnixNano())
+	}
+	if b, err := os.ReadFile(filepath.Join(verif, "anchors.json")); err == nil {
+		h.Write(b)
+	}
+	pb, _ := os.ReadFile(patch)
+	h.Write([]byte(repoHash))
+	h.Write(pb)
+	key := fmt.Sprintf("%x", h.Sum(nil))[:32]
+	cacheDir := filepath.Join(os.TempDir(), "vcheck_wcache")
+	cacheFile := filepath.Join(cacheDir, key+".json")
+	type entry struct {
+		Reports map[string][]string `json:"reports"`
+		Ran     []string            `json:"ran"`
+		Err     string              `json:"err"`
+	}
+	if b, err := os.ReadFile(cacheFile); err == nil {
+		var e entry
+		if json.Unmarshal(b, &e) == nil && (len(e.Ran) > 0 || e.Err != "") {
+			return e.Reports, e.Err
+		}
+	}
+	sc, err := os.MkdirTemp("/tmp", "vwsc")
+	if err != nil {
+		return nil, err.Error()
+	}
+	defer os.RemoveAll(sc)
+	sub := exec.Command(exe, "-repo", tmp, "-verif", sc, "-property", "all", "-tier", "quick")
+	sub.Env = append(os.Environ(), "VCHECK_NO_WITNESSES=1", "VERIF_TIER=quick", "VCHECK_ANCHORS="+filepath.Join(verif, "anchors.json"))
+	out, _ := sub.CombinedOutput()
+	e := entry{Reports: map[string][]string{}}
+	for _, line := range strings.Split(string(out), "\n") {
+		if strings.HasPrefix(line, "VIOLATION property=") {
+			rest := strings.TrimPrefix(line, "VIOLATION property=")
+			i := strings.Index(rest, " ")
+			j := strings.Index(rest, "#")
+			if i > 0 && j > i {
+				e.Reports[rest[:i]] = append(e.Reports[rest[:i]], strings.Replace(rest[j+1:], "/", " · ", 1))
+			}
+		}
+		if strings.HasPrefix(line, "property ") && strings.Contains(line, " tier ") {
+			e.Ran = append(e.Ran, strings.Fields(line)[1])
+		}
+	}
+	if len(e.Ran) == 0 {
+		e.Err = strings.TrimSpace(string(out))
+		if len(e.Err) > 600 {
+			e.Err = e.Err[:600]
+		}
+	}
+	os.MkdirAll(cacheDir, 0o755)
+	// drop entries of earlier binaries/trees
+	if ents, err := os.ReadDir(cacheDir); err == nil {
+		for _, en := range ents {
+			if info, err := en.Info(); err == nil && time.Since(info.ModTime()) > 6*time.Hour {
+				os.Remove(filepath.Join(cacheDir, en.Name()))
+			}
+		}
+	}
+	if b, err := json.Marshal(e); err == nil {
+		tmpf := cacheFile + fmt.Sprintf(".%d", os.Getpid())
+		if os.WriteFile(tmpf, b, 0o644) == nil {
+			os.Rename(tmpf, cacheFile)
+		}
+	}
+	return e.Reports, e.Err
 }
